@@ -9,6 +9,7 @@ import math
 import random
 
 import numpy as np
+import pandas as pd
 
 from .. import core
 from ..core import fhex, unhex, close
@@ -226,6 +227,33 @@ def compare_floats(a_hex, b, smooth):
     return smooth and close(a, b, 1e-12)
 
 
+_INTERNAL_BROKEN = []
+
+
+def public_eval(I, rec, Ts):
+    """the same record evaluated through the PUBLIC API: a one-component stored model, predict() on a frame of the temperatures"""
+    from . import pframe
+    from opendsm.eemeter.models.daily.data import DailyReportingData
+    doc = pframe.make_doc("fw-su_sh_wi", "UTC", I["DailyModel"]().settings.model_dump())
+    doc["submodels"]["fw-su_sh_wi"] = dict(coefficients=dict(rec["coefficients"]), temperature_constraints=dict(rec["temperature_constraints"]), f_unc=1.0)
+    m = I["DailyModel"].from_dict(doc)
+    idx = pd.date_range("2021-01-01", periods=len(Ts), freq="D", tz="UTC")
+    out = m.predict(DailyReportingData(pd.DataFrame({"temperature": np.asarray(Ts, dtype=float)}, index=idx), is_electricity_data=True))
+    return (out["predicted"].to_numpy(dtype=float), out["predicted_unc"].to_numpy(dtype=float),
+            out["heating_load"].to_numpy(dtype=float), out["cooling_load"].to_numpy(dtype=float))
+
+
+def eval_submodel(I, dm, rec, sp, Ts):
+    """`_predict_submodel(submodel, T)` as the harness has always called it; when that internal signature no longer exists the tie is
+    broken (recorded once) and the record is evaluated through the public API instead, so that the oracle can still look for a failing input"""
+    if not _INTERNAL_BROKEN:
+        try:
+            return dm._predict_submodel(sp, np.array(Ts))
+        except (TypeError, AttributeError, KeyError) as e:
+            _INTERNAL_BROKEN.append(f"DailyModel._predict_submodel(submodel, T) is no longer callable: {type(e).__name__}: {str(e)[:100]}")
+    return public_eval(I, rec, Ts)
+
+
 def run(ctx):
     """ctx: dict(tier, seed, model_ok, budget_scale). Returns result dict."""
     rng = random.Random(ctx["seed"] * 1000003 + 11)
@@ -251,7 +279,7 @@ def run(ctx):
         Ts = temps_for(rng, rec, x)
         sp = I["DSP"](coefficients=I["MC"](**rec["coefficients"]),
                       temperature_constraints=rec["temperature_constraints"], f_unc=1.0)
-        model, unc, hdd, cdd = dm._predict_submodel(sp, np.array(Ts))
+        model, unc, hdd, cdd = eval_submodel(I, dm, rec, sp, Ts)
         res["evaluations"] += len(Ts)
         sig = regime_signature(rec, x, Ts)
         res["signatures"].add(sig)
@@ -318,6 +346,40 @@ def run(ctx):
                         res["disagreements"].append(dict(op="full_model", x=raw, T=Ts[i],
                                                          lean=None if cell == "err" else unhex(cell), impl=float(fm[i])))
                         break
+    if _INTERNAL_BROKEN:
+        res["disagreements"].append(dict(op="internal_api", detail=_INTERNAL_BROKEN[0]))
+
+    # ---- the curve a model object predicts is the curve of ITS CURRENT parameters: one object fitted on a building, used, then
+    # fitted on a different building must predict the second building with the second fit's coefficients (formula from to_dict())
+    try:
+        from .c12 import meter as _meter
+        from opendsm.eemeter.models.daily.data import DailyBaselineData, DailyReportingData
+        import contextlib, io
+        with contextlib.redirect_stdout(io.StringIO()), contextlib.redirect_stderr(io.StringIO()):
+            m = I["DailyModel"]()
+            # the second building has the first one's weather and load shape at another scale, so that both fits choose the same split
+            dA = _meter(random.Random(11), "both", n=365, noise=0.2)
+            dB = dA.copy()
+            dB["observed"] = dB["observed"] * 3.0 + 20.0
+            m.fit(DailyBaselineData(dA, is_electricity_data=True), ignore_disqualification=True)
+            m.predict(DailyReportingData(dA, is_electricity_data=True), ignore_disqualification=True)
+            m.fit(DailyBaselineData(dB, is_electricity_data=True), ignore_disqualification=True)
+            sweep = pd.DataFrame({"temperature": np.linspace(-20.0, 120.0, 365)}, index=dB.index)
+            got = m.predict(DailyReportingData(sweep, is_electricity_data=True), ignore_disqualification=True)
+            fresh = I["DailyModel"].from_dict(m.to_dict()).predict(DailyReportingData(sweep, is_electricity_data=True), ignore_disqualification=True)
+        res["evaluations"] += len(sweep)
+        a, b = got["predicted"].to_numpy(dtype=float), fresh["predicted"].to_numpy(dtype=float)
+        bad = np.flatnonzero(~((a == b) | (np.isnan(a) & np.isnan(b))))
+        if len(bad):
+            i = int(bad[0])
+            res["oracle_failures"].append(dict(clause="prediction_is_the_curve_of_the_current_parameters",
+                                               detail=dict(T=float(sweep["temperature"].iloc[i]), predicted=float(a[i]),
+                                                           curve_of_stored_parameters=float(b[i]), rows_differing=int(len(bad))),
+                                               history="fit(building A) -> predict -> fit(building B = A at another scale) -> predict, one DailyModel object"))
+        res["signatures"].add(("reused_object",))
+    except Exception as e:  # noqa
+        res["hist"]["reused_object_scenario_failed:" + type(e).__name__] = 1
+
     res["distinct_nontrivial"] = len(res["signatures"])
     res["rule"] = ("stored records of all seven shapes drawn inside and on the optimiser's box (balance points on "
                    "T_min/T_max/segment limits, equal balance points, zero slopes, zero/partial/full smoothing) x a sweep of "
